@@ -39,7 +39,14 @@ impl TimeGen {
                 0 => (1i64 << 53) + rng.range(0, 1 << 30),
                 1 => 1_700_000_000_000_000_000 + rng.range(0, 1_000_000_000_000),
                 2 => 1i64 << 62,
-                _ => -(1i64 << 60) - rng.range(0, 1 << 30),
+                _ => {
+                    // ... or at the very first representable instant (a stamp a "no sample yet" sentinel would pick)
+                    if rng.chance(0.4) {
+                        i64::MIN
+                    } else {
+                        -(1i64 << 60) - rng.range(0, 1 << 30)
+                    }
+                }
             },
         };
         let (lo, hi) = match rng.below(5) {
@@ -344,6 +351,10 @@ pub fn gen_node(prop: &str, kind: &str, profile: u8, tier: Tier, rng: &mut Rng, 
     if era {
         tg.t = -(1i64 << 62) - rng.range(0, 1_000_000_000_000);
     }
+    // (moving averages compute `now - window`: not started at the very first instant, see DESIGN 10.3)
+    if matches!(kind, "ma_f" | "ma_q") && tg.t == i64::MIN {
+        tg.t = -(1i64 << 60);
+    }
     let mut tiny_dt = false;
     let ramp = if near_max { 0 } else { ramp };
     if !huge && !near_max && matches!(kind, "cpid" | "ewma_f" | "ewma_q") && rng.chance(0.17) {
@@ -552,7 +563,7 @@ pub fn gen_node(prop: &str, kind: &str, profile: u8, tier: Tier, rng: &mut Rng, 
             2 => rng.range(-(1i64 << 50), 1i64 << 50),
             3 => rng.range(-1_000_000, 1_000_000),
             4 => (i64::MAX - 1).checked_sub(tg.t).unwrap_or(1),
-            5 => (i64::MIN + 1).checked_sub(first).unwrap_or(1),
+            5 => (i64::MIN + rng.below(2) as i64).checked_sub(first).unwrap_or(1),
             6 => (1_700_000_000_000_000_000i64).checked_sub(first).unwrap_or(1),
             _ => ((1i64 << 53) + 12345).checked_sub(first).unwrap_or(1),
         };
